@@ -34,6 +34,7 @@ type c14Op struct {
 	Ref      int    `json:"replay_of,omitempty"`            // index of an earlier authenticate op
 	Garbage  []byte `json:"garbage,omitempty"`
 	ClientCh uint64 `json:"client_challenge,omitempty"`
+	Layout   string `json:"message_layout,omitempty"` // MS-NLMP leaves version and MIC optional: "" both present, noversion, short, nomic
 }
 
 type c14Case struct {
@@ -87,6 +88,7 @@ func genC14(t *rapid.T) c14Case {
 				op.ChalOf = -3 // proof computed over an empty (zero-length) server challenge
 			}
 			op.ClientCh = rapid.Uint64().Draw(t, "clientChallenge")
+			op.Layout = rapid.SampledFrom([]string{"", "", "", "noversion", "short", "nomic"}).Draw(t, "layout")
 			// follow-up of the previous attempt in the same session: same session and domain, another named user,
 			// proof computed with the previous attempt's user (whose key a careless verifier may still hold)
 			if len(c.Ops) > 0 && c.Ops[len(c.Ops)-1].Op == "authenticate" && rapid.IntRange(0, 2).Draw(t, "followUp") == 0 {
@@ -190,7 +192,7 @@ func runC14(c c14Case) *Violation {
 				binary.LittleEndian.PutUint64(cc, op.ClientCh)
 				msg, blob, proof := ntlmx.Authenticate(ntlmx.AuthSpec{User: op.Claimed, Domain: op.Domain, Workstation: "WS",
 					Key: ntlmx.NTOWFv2(op.KeyPass, op.KeyUser, op.Domain), ServerChallenge: src.ServerChallenge, TargetInfo: src.TargetInfo,
-					Timestamp: []byte{0, 0x80, 0x3e, 0xd5, 0xde, 0xb1, 0x9d, 0x01}, ClientChallenge: cc})
+					Timestamp: []byte{0, 0x80, 0x3e, 0xd5, 0xde, 0xb1, 0x9d, 0x01}, ClientChallenge: cc, Layout: op.Layout})
 				m = c14Sent{msg: base64.StdEncoding.EncodeToString(msg), claimed: op.Claimed, domain: op.Domain, proof: proof, blob: blob}
 				sent = append(sent, m)
 			}
